@@ -58,7 +58,8 @@ class C05(object):
                          'codes_generated_mid_construction', 'built_by_step_runner', 'cross_rates.requested_before_build', 'locals_named_like_math_symbols.declared',
                          'rebuilt_with_names_kept_from_before_first_build',
                          'equation_object_shared_by_sectors.declared',
-                         'term_built_products_and_quotients_of_locals.declared')
+                         'term_built_products_and_quotients_of_locals.declared',
+                         'other_models_created_during_construction')
 
     def n_cases(self, tier):
         return 32 if tier == 'quick' else 1200
@@ -79,11 +80,22 @@ class C05(object):
         spec = case['spec']
         shape = M.shape_of(spec)
         rng = random.Random(case['eseed'])
+        # (idx % 4 == 1: unrelated Model objects - and a small second model - are created while this one is being put together)
+        interleave = case.get('idx', 0) % 4 == 1 and not case.get('no_interleave')
         b = M.build(spec, solve=False, codes_after_first_country=case.get('codes_after_first_country', False),
-                    ext_first=not case.get('codes_after_first_country', False))
+                    ext_first=not case.get('codes_after_first_country', False), interleave_model=interleave)
+        if interleave:
+            rec.count('other_models_created_during_construction')
         if case.get('codes_after_first_country'):
             rec.count('codes_generated_mid_construction')
         if b.error is not None:
+            if interleave:
+                plain = M.build(spec, solve=False, codes_after_first_country=case.get('codes_after_first_country', False),
+                                ext_first=not case.get('codes_after_first_country', False))
+                if plain.error is None:
+                    rec.violate('model_cannot_be_put_together_while_other_models_are_created',
+                                {'err': repr(b.error)[:300], 'note': 'the same specification is put together without error when no other Model is created meanwhile'})
+                    return {'verdict': 'violated', 'shape': shape, 'counters': rec.counters, 'violations': rec.violations}
             return {'verdict': 'notjudged', 'shape': shape + '|construction:' + type(b.error).__name__}
         mod = b.model
         handed = []       # (text handed out, target sector, target local)
@@ -288,12 +300,20 @@ class C05(object):
                 rec.count('rebuilt_with_names_kept_from_before_first_build')
         except Exception as e:
             Sector.GetVariableName = orig_gvn
+            if interleave and self.run_case(dict(case, no_interleave=True))['verdict'] in ('held', 'violated'):
+                rec.violate('model_cannot_be_built_while_other_models_are_created',
+                            {'err': repr(e)[:300], 'note': 'the same case builds when no other Model is created during its construction'})
+                return {'verdict': 'violated', 'shape': shape, 'counters': rec.counters, 'violations': rec.violations}
             return {'verdict': 'notjudged', 'shape': shape + '|build:' + type(e).__name__, 'obs': {'err': repr(e)[:300]}}
         finally:
             Sector.GetVariableName = orig_gvn
         rec.count('placeholders.handed_out', len(handed))
         text = mod.FinalEquations
         if not text:
+            if interleave and self.run_case(dict(case, no_interleave=True))['verdict'] in ('held', 'violated'):
+                rec.violate('model_cannot_be_built_while_other_models_are_created',
+                            {'note': 'no equations were produced; the same case builds when no other Model is created during its construction'})
+                return {'verdict': 'violated', 'shape': shape, 'counters': rec.counters, 'violations': rec.violations}
             return {'verdict': 'notjudged', 'shape': shape + '|no_text'}
         self.judge(rec, mod, text, embedded, spec)
         rec.count('models.judged')
